@@ -1,4 +1,4 @@
-import IoraModel.Model.Xml
+import IoraModel.Lemmas.XmlClosed
 set_option linter.unusedSimpArgs false
 set_option linter.unusedVariables false
 /-! Helper lemmas about the XML tokenizer model: cursor discipline, reader specifications, the per-call specification of
@@ -160,12 +160,12 @@ theorem spanLen_le (p : UInt8 → Bool) : ∀ r : Bytes, spanLen p r ≤ r.lengt
   | nil => simp [spanLen]
   | cons ch r ih => simp only [spanLen]; split <;> simp <;> omega
 
-theorem skipSpaces_sat (c : Cur) : (skipSpaces c).Sat c (fun _ _ => True) := by
-  unfold skipSpaces
+theorem skipSpaces_sat (c : Cur) : (skipSpacesC c).Sat c (fun _ _ => True) := by
+  unfold skipSpacesC
   exact (advR_sat (spanLen_le _ _)).mono (fun _ _ _ _ => trivial)
 
-theorem skipWs_sat (c : Cur) : (skipWhitespaceOutsideText c).Sat c (fun _ _ => True) := by
-  unfold skipWhitespaceOutsideText
+theorem skipWs_sat (c : Cur) : (skipWhitespaceOutsideTextC c).Sat c (fun _ _ => True) := by
+  unfold skipWhitespaceOutsideTextC
   simp only
   split
   · split
@@ -201,8 +201,8 @@ theorem startsWithCI_length : ∀ (p r : Bytes), startsWithCI p r = true → p.l
 
 /-- `matchString`: on `true` the cursor moved by exactly `|s|`, on `false` it did not move -/
 theorem matchString_sat (s : Bytes) (c : Cur) :
-    (matchString s c).Sat c (fun m c' => if m then c'.pos = c.pos + s.length else c' = c) := by
-  unfold matchString
+    (matchStringC s c).Sat c (fun m c' => if m then c'.pos = c.pos + s.length else c' = c) := by
+  unfold matchStringC
   split
   · rename_i h
     apply Res.bind_sat (advR_sat (startsWith_length _ _ h))
@@ -211,8 +211,8 @@ theorem matchString_sat (s : Bytes) (c : Cur) :
   · exact ⟨Cur.Reach.refl c, by simp⟩
 
 theorem matchWordCI_sat (w : Bytes) (c : Cur) :
-    (matchWordCI w c).Sat c (fun m c' => if m then c'.pos = c.pos + w.length else c' = c) := by
-  unfold matchWordCI
+    (matchWordCIC w c).Sat c (fun m c' => if m then c'.pos = c.pos + w.length else c' = c) := by
+  unfold matchWordCIC
   split
   · rename_i h
     split
@@ -226,10 +226,10 @@ theorem matchWordCI_sat (w : Bytes) (c : Cur) :
 
 /-- `readName`: a returned name starts at the cursor, is non-empty, within `maxNameLength`, and ends at the new cursor -/
 theorem readName_sat (o : Options) (c : Cur) :
-    (readName o c).Sat c (fun r c' => match r with
+    (readNameC o c).Sat c (fun r c' => match r with
       | none => True
       | some sl => sl.off = c.pos ∧ 0 < sl.len ∧ sl.len ≤ o.maxName ∧ c'.pos = c.pos + sl.len) := by
-  unfold readName
+  unfold readNameC
   split
   · exact ⟨Cur.Reach.refl c, trivial⟩
   · rename_i ch r hr
@@ -266,10 +266,10 @@ theorem findSub_bound (pat : Bytes) : ∀ (r : Bytes) (k : Nat), findSub pat r =
 
 /-- `readUntil`: the slice starts at the cursor and ends before the terminator, which ends at the new cursor -/
 theorem readUntil_sat (e : Bytes) (c : Cur) :
-    (readUntil e c).Sat c (fun r c' => match r with
+    (readUntilC e c).Sat c (fun r c' => match r with
       | none => c' = c
       | some sl => sl.off = c.pos ∧ c'.pos = c.pos + sl.len + e.length) := by
-  unfold readUntil
+  unfold readUntilC
   split
   · exact ⟨Cur.Reach.refl c, rfl⟩
   · rename_i k hk
@@ -279,8 +279,8 @@ theorem readUntil_sat (e : Bytes) (c : Cur) :
 
 /-- `readQuotedValue`: the value lies strictly inside what was consumed and respects `maxTextSpan` -/
 theorem readQuotedValue_sat (o : Options) (c : Cur) :
-    (readQuotedValue o c).Sat c (fun sl c' => c.pos < sl.off ∧ sl.off + sl.len < c'.pos ∧ sl.len ≤ o.maxText) := by
-  unfold readQuotedValue
+    (readQuotedValueC o c).Sat c (fun sl c' => c.pos < sl.off ∧ sl.off + sl.len < c'.pos ∧ sl.len ≤ o.maxText) := by
+  unfold readQuotedValueC
   split
   · exact ⟨Cur.Reach.refl c, rfl⟩
   · rename_i q r hr
@@ -324,7 +324,7 @@ theorem Attr.Ok.mono {o : Options} {hi hi' : Nat} {a : Attr} (h : a.Ok o hi) (hl
 the list respects `maxAttrsPerElement` and every attribute lies in the consumed range -/
 theorem readAttributes_sat (o : Options) : ∀ (fuel : Nat) (acc : List Attr) (c : Cur),
     c.rest.length < fuel → acc.length ≤ o.maxAttrs → (∀ a ∈ acc, a.Ok o c.pos) →
-    (readAttributes o fuel acc c).Sat c (fun as c' =>
+    (readAttributesC o fuel acc c).Sat c (fun as c' =>
       as.length ≤ o.maxAttrs ∧ (∀ a ∈ as, a.Ok o c'.pos) ∧ (∃ ch r, c'.rest = ch :: r ∧ (ch = 0x2F ∨ ch = 0x3E)) ∧
       acc.length ≤ as.length) := by
   intro fuel
@@ -332,7 +332,7 @@ theorem readAttributes_sat (o : Options) : ∀ (fuel : Nat) (acc : List Attr) (c
   | zero => intro acc c h; omega
   | succ fuel ih =>
     intro acc c hfuel hacc hok
-    simp only [readAttributes]
+    simp only [readAttributesC]
     apply Res.bind_sat (skipSpaces_sat c)
     intro _ c1 hr1 _
     split
@@ -452,8 +452,8 @@ theorem emit_sat {bs : Bytes} {o : Options} {s : St} {c : Cur} {t : Token}
 
 theorem readPI_sat {bs : Bytes} {o : Options} {s : St} {start c : Cur}
     (h0 : s.cur.Reach start) (h1 : start.Reach c) (hlt : start.pos < c.pos) :
-    Step.Sat bs o s (readPI o s start c) := by
-  unfold readPI
+    Step.Sat bs o s (readPIC o s start c) := by
+  unfold readPIC
   apply toStep_sat (h0.trans h1) (readName_sat o c)
   intro target c1 hr1 hp1
   split
@@ -481,7 +481,7 @@ theorem readPI_sat {bs : Bytes} {o : Options} {s : St} {start c : Cur}
 theorem readUntilTok_sat {bs : Bytes} {o : Options} {s : St} {start c : Cur} (e : Bytes) (kd : Kind) (ek : ErrKind)
     (hkd : kd = .comment ∨ kd = .cdata) (hek : ek.isDom = false)
     (h0 : s.cur.Reach start) (h1 : start.Reach c) (hlt : start.pos < c.pos) :
-    Step.Sat bs o s ((readUntil e c).toStep fun r c1 =>
+    Step.Sat bs o s ((readUntilC e c).toStep fun r c1 =>
       match r with
       | none => .err ek c1
       | some sl => emit s c1 { kind := kd, text := sl, depth := s.depth,
@@ -507,12 +507,12 @@ theorem readUntilTok_sat {bs : Bytes} {o : Options} {s : St} {start c : Cur} (e 
 
 theorem readComment_sat {bs : Bytes} {o : Options} {s : St} {start c : Cur}
     (h0 : s.cur.Reach start) (h1 : start.Reach c) (hlt : start.pos < c.pos) :
-    Step.Sat bs o s (readComment s start c) :=
+    Step.Sat bs o s (readCommentC s start c) :=
   readUntilTok_sat _ .comment _ (Or.inl rfl) rfl h0 h1 hlt
 
 theorem readCData_sat {bs : Bytes} {o : Options} {s : St} {start c : Cur}
     (h0 : s.cur.Reach start) (h1 : start.Reach c) (hlt : start.pos < c.pos) :
-    Step.Sat bs o s (readCData s start c) :=
+    Step.Sat bs o s (readCDataC s start c) :=
   readUntilTok_sat _ .cdata _ (Or.inr rfl) rfl h0 h1 hlt
 
 theorem doctypeScan_bound : ∀ (r : Bytes) (b k : Nat), doctypeScan r b = some k → k + 1 ≤ r.length := by
@@ -538,8 +538,8 @@ theorem doctypeScan_bound : ∀ (r : Bytes) (b k : Nat), doctypeScan r b = some 
 
 theorem readDoctype_sat {bs : Bytes} {o : Options} {s : St} {start c : Cur}
     (h0 : s.cur.Reach start) (h1 : start.Reach c) (hlt : start.pos < c.pos) :
-    Step.Sat bs o s (readDoctype s start c) := by
-  unfold readDoctype
+    Step.Sat bs o s (readDoctypeC s start c) := by
+  unfold readDoctypeC
   split
   · exact ⟨h0.trans h1, rfl⟩
   · rename_i k hk
@@ -558,8 +558,8 @@ theorem readDoctype_sat {bs : Bytes} {o : Options} {s : St} {start c : Cur}
 
 theorem readEndTag_sat {bs : Bytes} {o : Options} {s : St} {start c : Cur} (hat : s.cur.At bs)
     (h0 : s.cur.Reach start) (h1 : start.Reach c) (hlt : start.pos < c.pos) :
-    Step.Sat bs o s (readEndTag o s start c) := by
-  unfold readEndTag
+    Step.Sat bs o s (readEndTagC o s start c) := by
+  unfold readEndTagC
   have hc : s.cur.Reach c := h0.trans h1
   apply toStep_sat hc (readName_sat o c)
   intro name c1 hr1 hp1
@@ -606,8 +606,8 @@ theorem readEndTag_sat {bs : Bytes} {o : Options} {s : St} {start c : Cur} (hat 
 
 theorem readStartOrEmptyTag_sat {bs : Bytes} {o : Options} {s : St} {start c : Cur} (hat : s.cur.At bs)
     (h0 : s.cur.Reach start) (h1 : start.Reach c) (hlt : start.pos < c.pos) :
-    Step.Sat bs o s (readStartOrEmptyTag o s start c) := by
-  unfold readStartOrEmptyTag
+    Step.Sat bs o s (readStartOrEmptyTagC o s start c) := by
+  unfold readStartOrEmptyTagC
   have hc : s.cur.Reach c := h0.trans h1
   apply toStep_sat hc (readName_sat o c)
   intro name c1 hr1 hp1
@@ -678,8 +678,8 @@ theorem readStartOrEmptyTag_sat {bs : Bytes} {o : Options} {s : St} {start c : C
 
 theorem readText_sat {bs : Bytes} {o : Options} {s : St} {c : Cur} {ch : UInt8} {r : Bytes}
     (h0 : s.cur.Reach c) (hrest : c.rest = ch :: r) :
-    Step.Sat bs o s (readText o s c r) := by
-  unfold readText
+    Step.Sat bs o s (readTextC o s c r) := by
+  unfold readTextC
   simp only
   have hk : 1 + spanLen notLt r ≤ c.rest.length := by
     rw [hrest]; have := spanLen_le notLt r; simp; omega
@@ -705,8 +705,8 @@ theorem readText_sat {bs : Bytes} {o : Options} {s : St} {c : Cur} {ch : UInt8} 
 /-- **the per-call specification**: from a state whose cursor is consistent with the input, `next()` either produces a token
 (strict progress, slices inside the consumed range, limits respected, stack discipline), or Eof with an empty stack, or an error;
 it never reads out of range -/
-theorem next_sat (bs : Bytes) (o : Options) (s : St) (hat : s.cur.At bs) : Step.Sat bs o s (next o s) := by
-  unfold next
+theorem next_sat (bs : Bytes) (o : Options) (s : St) (hat : s.cur.At bs) : Step.Sat bs o s (nextC o s) := by
+  unfold nextC
   split
   · exact ⟨Cur.Reach.refl _, rfl⟩
   · apply toStep_sat (Cur.Reach.refl _) (skipWs_sat s.cur)
@@ -764,10 +764,10 @@ theorem next_sat (bs : Bytes) (o : Options) (s : St) (hat : s.cur.At bs) : Step.
       · exact readText_sat hr hrest
 
 /-- the token budget is tested before anything else -/
-theorem next_budget (o : Options) (s : St) (t : Token) (s' : St) (h : next o s = .tok t s') :
+theorem next_budget (o : Options) (s : St) (t : Token) (s' : St) (h : nextC o s = .tok t s') :
     o.maxTokens ≠ 0 → s.produced < o.maxTokens := by
   intro hne
-  unfold next at h
+  unfold nextC at h
   split at h
   · cases h
   · rename_i hc
@@ -916,6 +916,11 @@ theorem sm_step {bs : Bytes} {s s' : St} {t : Token} (ts : List Token) (h : Tran
     rw [h.1]
     cases hk : t.kind <;> simp_all
 
+theorem Trans.kind_ok {bs : Bytes} {s s' : St} {t : Token} (h : Trans bs s t s') :
+    t.kind ≠ .eof ∧ t.kind ≠ .invalid ∧ t.kind ≠ .xmlDecl := by
+  unfold Trans at h
+  cases hk : t.kind <;> simp [hk] at h ⊢
+
 /-- the stack discipline of a finished run: an accepted run closes everything; a failed run leaves the names that were open -/
 def StackP (bs : Bytes) (s : St) (ts : List Token) : Outcome → Prop
   | .accepted _ _ => sm bs s.stack ts = some []
@@ -937,19 +942,20 @@ structure RunOk (bs : Bytes) (o : Options) (s : St) (ts : List Token) (out : Out
   below : ∀ t ∈ ts, t.Below bs.length
   limits : ∀ t ∈ ts, t.LimitsAll o
   budget : o.maxTokens ≠ 0 → s.produced + ts.length ≤ o.maxTokens
+  kinds : ∀ t ∈ ts, t.kind ≠ .eof ∧ t.kind ≠ .invalid ∧ t.kind ≠ .xmlDecl
   stack : StackP bs s ts out
   final : FinalP bs s ts out
 
 theorem run_ok (bs : Bytes) (o : Options) : ∀ (fuel : Nat) (s : St), Inv bs o s → bs.length - s.cur.pos < fuel →
-    RunOk bs o s (run o fuel s).1 (run o fuel s).2 := by
+    RunOk bs o s (runC o fuel s).1 (runC o fuel s).2 := by
   intro fuel
   induction fuel with
   | zero => intro s _ h; omega
   | succ fuel ih =>
     intro s hi hfuel
     have hsat := next_sat bs o s hi.cur
-    simp only [run]
-    cases hn : next o s with
+    simp only [runC]
+    cases hn : nextC o s with
     | tok t s' =>
       rw [hn] at hsat
       obtain ⟨hi', hlim⟩ := hi.step hsat (next_budget o s t s' hn)
@@ -957,12 +963,12 @@ theorem run_ok (bs : Bytes) (o : Options) : ∀ (fuel : Nat) (s : St), Inv bs o 
       have hbound : s'.cur.pos ≤ bs.length := hi'.cur.1
       have := ih s' hi' (by omega)
       simp only
-      cases hrun : run o fuel s' with
+      cases hrun : runC o fuel s' with
       | mk ts out =>
         rw [hrun] at this
         simp only at this ⊢
         have hbud := next_budget o s t s' hn
-        refine ⟨this.notBad, ?_, ?_, ?_, ?_, ?_, ?_⟩
+        refine ⟨this.notBad, ?_, ?_, ?_, ?_, ?_, ?_, ?_⟩
         · have := this.count; simp; omega
         · intro t' ht'
           simp at ht'
@@ -978,6 +984,11 @@ theorem run_ok (bs : Bytes) (o : Options) : ∀ (fuel : Nat) (s : St), Inv bs o 
           have h1 := this.budget hne
           have h2 := hbud hne
           simp; omega
+        · intro t' ht'
+          simp at ht'
+          cases ht' with
+          | inl h => subst h; exact Trans.kind_ok htr
+          | inr h => exact this.kinds t' h
         · have hs := this.stack
           cases out with
           | accepted _ _ => simp only [StackP] at hs ⊢; rw [sm_step ts htr]; exact hs
@@ -1004,7 +1015,7 @@ theorem run_ok (bs : Bytes) (o : Options) : ∀ (fuel : Nat) (s : St), Inv bs o 
       have htot := hat'.total
       rw [hrest] at htot
       simp at htot
-      refine ⟨(by intro b h; cases h), (by simp; exact hi.cur.1), (by simp), (by simp), (by intro hne; have := hi.prod hne; simp; omega), ?_, ?_⟩
+      refine ⟨(by intro b h; cases h), (by simp; exact hi.cur.1), (by simp), (by simp), (by intro hne; have := hi.prod hne; simp; omega), (by simp), ?_, ?_⟩
       · simp only [StackP, sm]; rw [hs0]
       · simp only [FinalP]
         exact ⟨hk, by omega, htot, hs1, by simp; omega⟩
@@ -1012,7 +1023,7 @@ theorem run_ok (bs : Bytes) (o : Options) : ∀ (fuel : Nat) (s : St), Inv bs o 
       rw [hn] at hsat
       simp only
       have hat' := Cur.Reach.at hi.cur hsat.1
-      refine ⟨(by intro b h; cases h), (by simp; exact hi.cur.1), (by simp), (by simp), (by intro hne; have := hi.prod hne; simp; omega), ?_, ?_⟩
+      refine ⟨(by intro b h; cases h), (by simp; exact hi.cur.1), (by simp), (by simp), (by intro hne; have := hi.prod hne; simp; omega), (by simp), ?_, ?_⟩
       · simp only [StackP, sm]
       · simp only [FinalP]
         exact ⟨hat'.1, by simp, hi.depth, hsat.2⟩
@@ -1020,8 +1031,8 @@ theorem run_ok (bs : Bytes) (o : Options) : ∀ (fuel : Nat) (s : St), Inv bs o 
       rw [hn] at hsat
       exact hsat.elim
 
-theorem tokens_ok (o : Options) (bs : Bytes) : RunOk bs o (St.init bs) (tokens o bs).1 (tokens o bs).2 := by
-  unfold tokens
+theorem tokens_ok (o : Options) (bs : Bytes) : RunOk bs o (St.init bs) (tokensC o bs).1 (tokensC o bs).2 := by
+  unfold tokensC
   exact run_ok bs o _ _ (Inv.init bs o) (by simp [St.init, Cur.init])
 
 end Iora.Xml
